@@ -31,6 +31,13 @@ a tolerant primitive and the early returns precede any removal.  C16.4 port
 allocation: PROD_PORT_HIGH < NONPROD_PORT_LOW, the environments using the
 prod range are those mapped to the prod container set, and the socket list
 is partitioned by index between endpoints and ephemeral ports.
+Added by the seeding rounds - C16.1 _cleanup reaches the network clean-up on
+every completed run (handled exception edges followed) and registrations and
+removals pair up under implied conditions (early returns and the resource-held
+guard understood); C16.2 unlink_all passes the owner; C16.3 the network
+resource is released after every removal, unlink_all scans every match, and no
+removal depends on another removal's result; thorough: registrars of rules /
+ip-set entries / endpoint specs are the owner modules.
 Does NOT decide host state equality over interleavings, nor that passthrough
 hosts resolve to the same addresses at start and finish (the source's own
 FIXME).
